@@ -7,6 +7,7 @@ mod det;
 mod ctrlauth;
 mod fb;
 mod format;
+mod resfault;
 mod resource;
 mod retain;
 mod hirdb;
@@ -33,6 +34,7 @@ fn main() {
         "ctrlauth-gen" => ctrlauth::gen(rest), "ctrlauth-run" => ctrlauth::run(rest),
         "resource-run" => resource::run(rest),
         "stcore-gen" => stcore::gen(rest),
+        "resfault-run" => resfault::run(rest),
         "stlib-run" => stlib::run(rest),
         "stlib-child" => stlib::child(rest),
         "stlib-confirm" => stlib::confirm_child(rest),
